@@ -138,6 +138,7 @@ def run(chk, S: Session):
     r3 = chk.rule("R-C08-3", "Normal methods: whitened residual RMS, rescale_cholesky, logpdf summands, std, identity_conditional, to_derivative, from_mean_and_std", floor=15)
     r4 = chk.rule("R-C08-4", "value identities of the mean algebra (affine matrix-word normal form): apply/marginalise/revert means, revert round trip, merge = composition, preconditioner removal", floor=15)
     mean_algebra_rules(chk, S, r4)
+    from_mean_and_std_rules(chk, S, r3)
     nin, nout, nmid = AD.dim("n_in"), AD.dim("n_out"), AD.dim("n_mid")
     for fam in FAMS:
         cfg = {"factorisation": fam.name}
@@ -300,6 +301,9 @@ def normal_rules(chk, S, r3, fam):
         ok = tA is not None and tm is not None and tcn is not None and tm.zero and tcn.zero and tA.rank == (3 if fam.name == "blockdiag" else 2) and AD.same_size(tA.axes[-1].size, n) and AD.same_size(tA.axes[-2].size, n)
         eyes = [x for x in T.subterms(ic.fields["A"]) if x.op == "np.eye"]
         ok = ok and len(eyes) == 1
+        # zero noise of the right shapes: the mean is shaped like this Normal's mean, the factor like its Cholesky factor
+        tm_self, tc_self = env.of(rv.fields["mean_flat"]), env.of(rv.fields["cholesky_flat"])
+        ok = ok and tm.rank == tm_self.rank and tcn.rank == tc_self.rank and all(AD.same_size(a_.size, b_.size) for a_, b_ in zip(tm.axes, tm_self.axes)) and all(AD.same_size(a_.size, b_.size) for a_, b_ in zip(tcn.axes, tc_self.axes))
     r3.require(ok, f"{nname}.identity_conditional", "A = identity (n x n), zero noise mean and covariance", f"{T.show(ic, 3)}", where, cfg)
     flush(env, r3, f"{nname}.identity_conditional", where, cfg)
     S.absorb(it)
@@ -370,6 +374,24 @@ nf.Fraction = Fraction
 
 
 
+def _tri(t, chol_atom):
+    """'lower' / 'upper' / None: triangular structure of a factor derived from the Normal's (lower) Cholesky factor."""
+    if not isinstance(t, T.Term):
+        return None
+    if t is chol_atom:
+        return "lower"
+    if t.op == "vmap_elem":
+        return _tri(t.args[1], chol_atom)
+    if t.op == "attr" and t.args[1] == "T":
+        s_ = _tri(t.args[0], chol_atom)
+        return {"lower": "upper", "upper": "lower"}.get(s_)
+    if t.op == "linalg.qr_r":
+        return "upper"
+    if t.op in ("np.abs", "np.asarray"):
+        return _tri(t.args[0], chol_atom)
+    return None
+
+
 def whitened_residual_ok(w, u, rv):
     """w = (triangular solve with a factor computed from the Normal's own Cholesky factor only)(+-(u - mean)); returns (ok, detail)."""
     w0 = w
@@ -387,9 +409,87 @@ def whitened_residual_ok(w, u, rv):
     if not (va and va <= {T.atom_name(c)}):
         return False, f"the whitening factor depends on {sorted(va)}; expected the Normal's own Cholesky factor only"
     d1, d2 = T.mk("sub", (u, m)), T.mk("sub", (m, u))
+    # the system solved must be  L w = r  with the *lower* factor: solver kind, transposition flag and the factor's triangle agree
+    st = _tri(fac, c)
+    trans = w.kwargs.get("trans", w.args[2] if len(w.args) > 2 else 0)
+    transposed = trans in (1, "T", "t")
+    if st is None:
+        return None, f"triangular structure of the whitening factor {T.show(fac, 3)} not derived"
+    if (w.op == "linalg.solve_tril") != (st == "lower"):
+        return False, f"{w.op.rsplit('.', 1)[1]} applied to a factor that is {st}-triangular: only its diagonal would be used"
+    effective = ("upper" if st == "lower" else "lower") if transposed else st
+    if effective != "lower":
+        return False, f"the solve uses the {effective}-triangular system (factor {st}, trans={trans!r}); whitening needs L w = u - mean with the lower Cholesky factor"
     if nf.equal(rhs, d1) or nf.equal(rhs, d2):
         return True, "L^-1 (u - mean)"
     return False, f"the whitened quantity is {T.show(rhs, 3)}; expected +-(u - mean)"
+
+
+
+def is_identity_matrix(t):
+    """np.eye(...) or diagonal_matrix(ones) (possibly with inserted leading axes)."""
+    while isinstance(t, T.Term) and t.op == "getitem":
+        idx = t.args[1] if isinstance(t.args[1], tuple) else (t.args[1],)
+        if not all(i is None or i is Ellipsis or i == slice(None, None, None) for i in idx):
+            return False
+        t = t.args[0]
+    if not isinstance(t, T.Term):
+        return False
+    if t.op == "np.eye":
+        return True
+    return t.op == "linalg.diagonal_matrix" and isinstance(t.args[0], T.Term) and t.args[0].op in ("np.ones", "np.ones_like") and not t.kwargs
+
+
+def diagonal_of(chol):
+    """The vector v such that chol = diag(v) (per block), or None: diagonal_matrix(v) or v[..., None] * identity."""
+    if isinstance(chol, T.Term) and chol.op == "linalg.diagonal_matrix" and not chol.kwargs:
+        return chol.args[0]
+    if isinstance(chol, T.Term) and chol.op == "mul":
+        for v, e in ((chol.args[0], chol.args[1]), (chol.args[1], chol.args[0])):
+            if is_identity_matrix(e) and isinstance(v, T.Term) and v.op == "getitem":
+                idx = v.args[1] if isinstance(v.args[1], tuple) else (v.args[1],)
+                if idx and idx[-1] is None and all(i is None or i is Ellipsis or i == slice(None, None, None) for i in idx):
+                    return v.args[0]
+    return None
+
+
+def from_mean_and_std_rules(chk, S, r3):
+    """from_mean_and_std: the Cholesky factor is the diagonal matrix of the standard deviations flattened in the class's own layout."""
+    for fam in FAMS:
+        it = S.interp()
+        cv = it.class_value(fam.normal_cls)
+        nname = fam.normal_cls.rsplit(".", 1)[1]
+        mean = [T.atom("fm.m0", array=True), T.atom("fm.m1", array=True)]
+        std = [T.atom("fm.s0", array=True), T.atom("fm.s1", array=True)]
+        cfg = {"factorisation": fam.name}
+        try:
+            rv = it.call(it.getattr(cv, "from_mean_and_std", None), [mean, std], {}, "<harness>")
+        except AnalysisError as e:
+            r3.unknown(f"{nname}.from_mean_and_std value", str(e), fam.module, cfg)
+            continue
+        S.absorb(it)
+        chol = rv.fields["cholesky_flat"] if isinstance(rv, Rec) else None
+        v = diagonal_of(chol)
+        tf = rv.fields.get("tree_flatten") if isinstance(rv, Rec) else None
+        ok = v is not None and isinstance(tf, Rec)
+        detail = f"cholesky = {T.show(chol, 5)}"
+        if ok:
+            flat = "flatten_tree_scalar" if fam.name == "isotropic" else "flatten_tree"
+            want = call(it, method(it, tf, flat), std)
+            ok = v is want
+            detail = f"diag({T.show(v, 4)}); expected diag({T.show(want, 4)})"
+        r3.require(bool(ok), f"{nname}.from_mean_and_std value", "Cholesky factor = diagonal matrix of the standard deviations in the own layout", detail, fam.module, cfg)
+    # dense to_multivariate_normal is (mean, L L^T)
+    it = S.interp()
+    mf = T.atom("mvn.mean", ndims={"": 1})
+    mf.meta["ndim"] = 1
+    cf = T.atom("mvn.chol", ndims={"": 2})
+    cf.meta["ndim"] = 2
+    rv = it.instantiate(it.class_value(DENSE + ".DenseNormal"), [mf, cf, A("tf")], {}, "<harness>")
+    out = call(it, method(it, rv, "to_multivariate_normal"))
+    S.absorb(it)
+    ok = isinstance(out, (tuple, list)) and len(out) == 2 and out[0] is mf and out[1] is T.mk("matmul", (cf, T.mk("attr", (cf, "T"))))
+    r3.require(ok, "DenseNormal.to_multivariate_normal value", "(mean, L @ L.T)", f"{T.show(out, 4)}", DENSE)
 
 
 # ---------------------------------------------------------------------------
